@@ -37,6 +37,7 @@ type TNode struct {
 	UPol     bool       `json:"upol,omitempty"`         // pure user Unmarshaler (constant output)
 	EPol     int        `json:"epol,omitempty"`         // equality policy: 1 always equal, 2 never equal
 	ReadOnly bool       `json:"ro,omitempty"`
+	LeftErr  bool       `json:"left_err,omitempty"` // an error left over from an earlier call is recorded in the instance
 	Shared   bool       `json:"shared,omitempty"` // this very node occurs at more than one position: ONE instance is built and stored at each
 	Alias    int        `json:"alias,omitempty"`  // 0 native, 1 AStack, 2 *AStack, 3 SStack, 4 *SStack / same for conditions
 	Kids     []*TNode   `json:"kids,omitempty"`
@@ -421,6 +422,12 @@ func (n *TNode) BuildCond() stackage.Condition {
 			c.SetEncap(append([]string{}, e...))
 		}
 	}
+	if n.NoNest {
+		c.SetNoNesting(true) // (after the expression is in: says nothing about what is already held)
+	}
+	if n.LeftErr {
+		c.SetErr(errPolicyRejects)
+	}
 	if n.PPol {
 		c.SetPresentationPolicy(func(...any) string { return "<presented condition>" })
 	}
@@ -686,10 +693,10 @@ func (g *TreeGen) genStack(r *core.Rng, depth int, root bool) *TNode {
 			n.Sym = []string{"&", "&&", "∧", "|", "und", "OrElse", "x"}[r.Intn(7)]
 		}
 		if n.Kind == "LIST" && r.Chance(1, 2) {
-			n.Delim = []string{",", " | ", "、", ";", " ", "  ", "\t"}[r.Intn(7)]
+			n.Delim = []string{",", " | ", "、", ";", " ", "  ", "\t", "/", ".", "::", ", "}[r.Intn(11)]
 		}
 		if r.Chance(1, 4) {
-			n.Enc = append(n.Enc, [][]string{{`"`}, {"(", ")"}, {"<", ">"}, {"'"}, {"«", "»"}}[r.Intn(5)])
+			n.Enc = append(n.Enc, [][]string{{`"`}, {"(", ")"}, {"<", ">"}, {"'"}, {"«", "»"}, {"%"}, {"'%", "%'"}, {"%d"}}[r.Intn(8)])
 			if r.Chance(1, 3) {
 				n.Enc = append(n.Enc, [][]string{{"[", "]"}, {"`"}, {"{", "}"}}[r.Intn(3)])
 			}
